@@ -114,7 +114,10 @@ def gen_case(rng, vector=None, nfaces=None, N=None):
     bw = [[a, [rng.randint(0, m), rng.randint(0, m)]] for a in bw_axes]
     return {"ctor": ctor, "N": N, "conn": conn, "vector": vaxis, "dims": dims, "vals": vals,
             "partner": partner, "bw": bw, "boundary": G.kwval(rng, axes, G.WORDS),
-            "fill": G.kwval(rng, axes, [0, 5, -1, 9])}
+            "fill": G.kwval(rng, axes, [0, 5, -1, 9, 0.5]),
+            # how the numbers are held (the partner component possibly differently)
+            "dtype": rng.choice(["float64", "float64", "int64", "float32"]),
+            "partner_dtype": rng.choice(["float64", "int64", "float32"])}
 
 
 def generate(rng, tier):
@@ -146,16 +149,16 @@ def build(case):
     return ds, g, fc
 
 
-def mkda(dims, vals):
+def mkda(dims, vals, dtype="float64"):
     import numpy as np
     import xarray as xr
-    return xr.DataArray(np.array(vals, dtype=float).reshape([l for _, l in dims]), dims=[d for d, _ in dims])
+    return xr.DataArray(np.array(vals, dtype=dtype).reshape([l for _, l in dims]), dims=[d for d, _ in dims])
 
 
 def run_impl(case):
     from xgcm.padding import _get_all_connection_axes, pad
     ds, g, fc = build(case)
-    da = mkda(case["dims"], case["vals"])
+    da = mkda(case["dims"], case["vals"], case.get("dtype", "float64"))
     bw = {a: tuple(w) for a, w in case["bw"]} if case["bw"] is not None else None
     order = []
     if bw is not None:
@@ -166,7 +169,7 @@ def run_impl(case):
     if case["vector"]:
         data = {case["vector"]: da}
         p = case["partner"]
-        kwargs["other_component"] = {p["axis"]: mkda(p["dims"], p["vals"])}
+        kwargs["other_component"] = {p["axis"]: mkda(p["dims"], p["vals"], case.get("partner_dtype", "float64"))}
     else:
         data = da
     try:
@@ -227,3 +230,58 @@ def distribution(cases, obs):
                         c[f"kind:{side}{'swap' if x[1] != a else 'same'}{'rev' if x[2] else 'nor'}"] += 1
         c["err:" + o["err"] if "err" in o else "ok"] += 1
     return dict(c)
+
+
+def extra_checks(rng, tier, notes):
+    """Padding moves values, it does not look at them: with one cell of the input (or of the partner
+    component) missing (NaN), the padded result is missing exactly where the result for the complete
+    input holds that cell's value (the generated values are pairwise distinct, also up to sign and
+    across the two components, and distinct from every fill value)."""
+    import numpy as np
+    from xgcm.padding import pad
+    out = []
+    n = 40 if tier == "quick" else 500
+    done = 0
+    for _ in range(n):
+        case = gen_case(rng)
+        if case["bw"] is None:
+            continue
+        ds, g, fc = build(case)
+        bw = {a: tuple(w) for a, w in case["bw"]}
+
+        def run(vals, pvals):
+            kwargs = {}
+            da = mkda(case["dims"], vals)
+            if case["vector"]:
+                p = case["partner"]
+                kwargs["other_component"] = {p["axis"]: mkda(p["dims"], pvals)}
+                data = {case["vector"]: da}
+            else:
+                data = da
+            r = pad(data, g, boundary_width=bw, boundary=case["boundary"], fill_value=case["fill"], **kwargs)
+            if isinstance(r, dict):
+                [r] = list(r.values())
+            return r.transpose(*sorted(r.dims)).values
+        vals = [float(v) for v in case["vals"]]
+        pvals = [float(v) for v in case["partner"]["vals"]] if case["partner"] else None
+        in_partner = bool(case["partner"]) and rng.random() < 0.4
+        src = pvals if in_partner else vals
+        i = rng.randrange(len(src))
+        v = src[i]
+        try:
+            clean = run(vals, pvals)
+            holed = list(src)
+            holed[i] = float("nan")
+            got = run(vals if in_partner else holed, holed if in_partner else pvals)
+        except Exception as e:
+            continue            # refusals are the business of the main stream
+        done += 1
+        expect_nan = (clean == v) | (clean == -v)
+        ok = got.shape == clean.shape and np.array_equal(np.isnan(got), expect_nan) and \
+            np.array_equal(got[~expect_nan], clean[~expect_nan])
+        if not ok:
+            out.append(({**case, "missing": {"component": "partner" if in_partner else "data", "index": i}},
+                        {"complete": clean.tolist(), "with_missing": [None if np.isnan(x) else x for x in got.ravel().tolist()]},
+                        "padding across face links treats a missing value differently from the value it replaces"))
+    notes.append(f"{done} padded arrays re-padded with one input cell missing: the missing cells are exactly the images of that cell")
+    return out
